@@ -1,1 +1,46 @@
-Theorem placeholder : True. Proof. exact I. Qed. Print Assumptions placeholder.
+(* C03 -- A declined reaction is returned untouched and with a reason.
+   run O db ban fuel t tmsg ins is the pipeline model (Model/Pipeline.v); the statements hold for
+   every oracle record O (whatever RDKit, the MCS machinery, the templates and the scoring model
+   answer), every rule database, ban list, solver fuel and input list.  The default threshold is
+   0, whose key is 0, and every confidence key is >= 0 (A5) -- hence the first hypothesis. *)
+From Coq Require Import String ZArith List Bool.
+From SynRBL Require Import Base.Dict Model.Comp Model.Matcher Model.Pipeline Proofs.PipelineProofs.
+Import ListNotations.
+Open Scope string_scope.
+
+Theorem C03_declined_untouched : forall O db ban fuel t tmsg ins rows st,
+  (forall a b, (confidence O a b >= t)%Z) ->
+  run O db ban fuel t tmsg ins = Done (rows, st) ->
+  forall r, In r rows -> solved r = false ->
+    rxn r = rinput r /\ exists s, issue r = Some s /\ s <> "".
+Proof. exact declined_untouched. Qed.
+
+Theorem C03_solved_named : forall O db ban fuel t tmsg ins rows st,
+  run O db ban fuel t tmsg ins = Done (rows, st) ->
+  forall r, In r rows -> solved r = true ->
+    sby r = Some M_INPUT \/ sby r = Some M_RB \/ sby r = Some M_MCS.
+Proof. exact solved_named. Qed.
+
+(* Not proved here (kept visible; decided by the correspondence + oracle run only):
+   - a solved row has an empty or absent issue: immediate for rows solved before the search
+     (no stage has written the column yet); for mcs-based rows it needs the oracle fact
+     "impute_reaction succeeds only on an empty issue" plus a determinism argument for rows
+     whose imputation failed;
+   - a carbon-deficit reaction is always declined: needs the oracle fact "impute_reaction
+     refuses reactant-side carbon imbalance" and that appended water carries no carbon. *)
+
+(* non-vacuity: a run with a declined row and a solved row (tiny oracle tables) *)
+Definition O0 : oracles :=
+  {| strip := fun s => s; parse_ok := fun _ => true;
+     decomp := fun s => if String.eqb s "C" then [("C",1);("H",4)]%Z else if String.eqb s "CC" then [("C",2);("H",6)]%Z else [];
+     ccount := fun s => if String.eqb s "C" then 1%Z else if String.eqb s "CC" then 2%Z else 0%Z;
+     mcs_state := fun _ => (true, "No MCS identified."); impute := fun _ => ImpFail "x"; pp := fun _ => None;
+     confidence := fun _ _ => 0%Z |}.
+Example run_has_both :
+  option_map (map (fun r => (rxn r, solved r, sby r, issue r)))
+    (match run O0 [] [] 10 0%Z "m" ["C>>C"; "C>>CC"] with Done (rows, _) => Some rows | Raised _ => None end) =
+  Some [("C>>C", true, Some M_INPUT, None); ("C>>CC", false, None, Some "No MCS identified.")].
+Proof. vm_compute. reflexivity. Qed.
+
+Print Assumptions C03_declined_untouched.
+Print Assumptions C03_solved_named.
